@@ -17,8 +17,10 @@ def run(ctx, res):
         "placed exactly once (as a Text part, as Element.start_token, or handed back as the closer) and the child list filled "
         "by the recursive call is consumed exactly once (Element.children or spliced into the parts).  `Option::map_or(d, f)` "
         "is modelled as match for flow (the eagerly built default is discarded when the tag parses).  (R2) tag names are "
-        "compared exactly (closing-prefix operations reviewed).  Not decided: innermost matching, demotion of crossing tags, "
-        "document order.")
+        "compared exactly (closing-prefix operations reviewed).  (R7) the token cursor moves by one, the recursion starts at the moved cursor and the "
+        "cursor continues where it stopped; (R8) an element is built exactly when opener and returned closer agree in name, otherwise the closer is "
+        "handed up; (R9 / R10) the opener is on the list of open elements - for a shared stack of names: push, recursive call, pop on every path.  "
+        "Not decided: demotion of crossing tags beyond the placement of their tokens, document order of siblings.")
     res.trusted += ["driver fact extraction and the abstract interpreter", "Vec::extend appends all items in order"]
     b = P.fn("parser::tree")
     fn = fshort(b)
